@@ -130,53 +130,61 @@ theorem walk_paths_lead_back {X : SetOracle} (hX : IterPerm X) (root : Value)
 
 /-! ## path application succeeds exactly when every step names an existing member -/
 
-/-- The full statement — `Path.Apply` never panics and succeeds exactly when each
-step names an existing member — is FALSE of the code: an unknown number key on a
-tuple and a null number / string key panic. -/
-def ApplyNeverPanics : Prop := ∀ (p : Path) (v : Value), (Path.apply p v).isPanic = false
+/-- **`Path.Apply` never panics** — the full statement: every path whose index keys
+are shaped values (of any type; known, unknown or null; marked or not), applied
+to every shaped value of a well-formed type.  (Shapedness is what every value the
+public API can build has; the model also contains ill-typed payloads, on which the
+transliterated operation methods "panic" as the Go type assertions would.) -/
+def ApplyNeverPanics : Prop :=
+  ∀ (p : Path) (v : Value), shapedV v = true → Ty.wf v.ty = true → keysShaped p = true →
+    (Path.apply p v).isPanic = false
 
-/-- `IndexStep{Key: unknown number}.Apply(tuple)` panics (DESIGN §8 #15): the
-"names no particular member" branch asks a tuple type for its element type. -/
-theorem apply_unknown_key_tuple_counterexample :
-    Path.apply [.index (Value.unknown .number)] ⟨.tuple [], .seq []⟩ =
-      .panic "ElementType on non-collection type" := by rfl
+/-- holds since 32f15f9 (`IndexStep.Apply` answers a null key with an error and an
+unknown index into a tuple with `DynamicVal`) -/
+theorem apply_never_panics : ApplyNeverPanics :=
+  fun p v hs hw hk => (apply_ok_iff p v hs hw hk).2
 
-/-- `IndexStep{Key: null number}.Apply(list)` (likewise tuple; null string on a
-map) panics inside `HasIndex`, where every other unusable key is an error. -/
-theorem apply_null_key_counterexample :
-    Path.apply [.index (Value.null .number)] ⟨.list .string, .seq []⟩ =
-      .panic "key payload is not a number" := by rfl
+/-- regression (DESIGN §8 #15, repaired): `IndexStep{Key: unknown number}.Apply(tuple)`
+is `DynamicVal`, not a panic -/
+example : Path.apply [.index (Value.unknown .number)] ⟨.tuple [], .seq []⟩ = .ok Value.dynVal := by rfl
 
-theorem applyNeverPanics_false : ¬ ApplyNeverPanics := by
-  intro h
-  have := h [.index (Value.unknown .number)] ⟨.tuple [], .seq []⟩
-  rw [apply_unknown_key_tuple_counterexample] at this
-  cases this
+/-- regression (repaired): a null number key on a list / tuple, a null string key on a
+map are errors, not panics -/
+example : Path.apply [.index (Value.null .number)] ⟨.list .string, .seq []⟩ =
+    .err "key value is null" := by rfl
+example : Path.apply [.index (Value.null .number)] ⟨.tuple [], .seq []⟩ =
+    .err "key value is null" := by rfl
+example : Path.apply [.index (Value.null .string)] ⟨.map .string, .smap [] []⟩ =
+    .err "key value is null" := by rfl
 
 /-- **One step** (`GetAttrStep.Apply`, `IndexStep.Apply`) on a shaped value of a
-well-formed type, with a *plain* key (unmarked; if its type is number / string
-then a known non-null number / string — a key of any other type is allowed and
-names nothing): the step succeeds exactly when it names an existing member
-(`stepExists`: the attribute is declared; the whole-number index is within the
-list / tuple; the key is in the map; null has no members; an unknown list or map
-has its members by type), it does not panic, and what it returns is again a
-shaped value of a well-formed type. -/
-theorem apply_step_ok_iff_exists_partial (s : PathStep) (v : Value) (hs : shapedV v = true)
+well-formed type, with any shaped key: the step succeeds exactly when it names an
+existing member (`stepExists`: the attribute is declared; a known key — marks
+aside — is a whole-number index within the list / tuple or a key of the map; an
+unknown key of the fitting type names no particular member and is accepted; a
+null key and a key of another type name nothing; null has no members; an unknown
+list or map has its members by type), it does not panic, and what it returns is
+again a shaped value of a well-formed type. -/
+theorem apply_step_ok_iff_exists (s : PathStep) (v : Value) (hs : shapedV v = true)
     (hw : Ty.wf v.ty = true)
-    (hk : (match s with | .index k => plainKey k | .getAttr _ => true) = true) :
+    (hk : (match s with | .index k => shapedV k | .getAttr _ => true) = true) :
     ((s.apply v).isOk = true ↔ stepExists s v = true) ∧ (s.apply v).isPanic = false ∧
       ∀ v', s.apply v = .ok v' → shapedV v' = true ∧ Ty.wf v'.ty = true := by
   have := step_ok_iff s v hs hw hk
   exact ⟨by rw [this.1], this.2, fun v' h => step_shaped s v v' hs hw hk h⟩
 
-/-- **Whole paths.**  `Path.Apply` with plain keys on a shaped value of a
-well-formed type succeeds exactly when every step names an existing member of
+/-- marks on a key change neither whether the step succeeds nor whether it panics -/
+theorem apply_step_key_marks_irrelevant (v k : Value) (hk : shapedV k = true) :
+    ((PathStep.index k).apply v).isOk = ((PathStep.index k.unmark).apply v).isOk ∧
+    ((PathStep.index k).apply v).isPanic = ((PathStep.index k.unmark).apply v).isPanic :=
+  apply_index_unmark v k hk
+
+/-- **Whole paths.**  `Path.Apply` — any shaped keys, a shaped value of a
+well-formed type — succeeds exactly when every step names an existing member of
 the value reached by the steps before it (`stepsExist`), and does not panic.
-`_partial`: keys that are unknown, null or marked are outside (the first two
-panic on the real code — the counterexamples above — the third is not
-examined). -/
-theorem apply_ok_iff_steps_exist_partial (p : Path) (v : Value) (hs : shapedV v = true)
-    (hw : Ty.wf v.ty = true) (hk : plainKeys p = true) :
+(No longer `_partial`: unknown, null and marked keys are covered.) -/
+theorem apply_ok_iff_steps_exist (p : Path) (v : Value) (hs : shapedV v = true)
+    (hw : Ty.wf v.ty = true) (hk : keysShaped p = true) :
     ((Path.apply p v).isOk = true ↔ stepsExist p v = true) ∧ (Path.apply p v).isPanic = false := by
   have := apply_ok_iff p v hs hw hk
   exact ⟨by rw [this.1], this.2⟩
@@ -295,10 +303,13 @@ theorem unmark_remark_roundtrip {X : SetOracle} (hX : IterPerm X) {σ σ' : Sche
 
 /-! ## path sets behave as mathematical sets of paths -/
 
-/-- **`pathSetRules` is lawful** on paths whose index keys are plain known numbers
-or strings: `Equivalent` is reflexive, symmetric and transitive, and equivalent
-paths hash alike (the hash writes the same bytes: attribute names, `#` for every
-index step). -/
+/-- **`pathSetRules` is lawful** on paths whose index keys are known numbers or
+strings — marked or not, since 9ae0f30 drops the marks before the comparison is
+read: `Equivalent` is reflexive, symmetric and transitive, and equivalent paths
+hash alike (the hash writes the same bytes: attribute names, `#` for every index
+step).  A key and the same key with marks are equivalent (`keyEq` looks under the
+marker).  Unknown keys remain outside (next theorem); so do null keys and keys
+of compound type (no `Equals`-equivalence theorem for them yet). -/
 theorem pathset_rules_lawful : PathSet.goodRules.Lawful := PathSet.goodRules_lawful
 
 /-- Reflexivity fails for a path with an unknown key (`Equals` of an unknown with
@@ -311,19 +322,21 @@ theorem pathset_unknown_key_counterexample :
   constructor <;> rfl
 
 
-/-- Index keys that carry marks make `Equivalent` panic: `Key.Equals(Key)` inherits
-the marks and `False()` asserts an unmarked receiver.  So `Add` of a second such
-path (same bucket: every index step hashes alike) panics. -/
-theorem pathset_marked_key_counterexample :
+/-- regression (repaired): paths whose index keys carry marks compare without a panic,
+are good paths, and a marked key is equivalent to the same key unmarked -/
+example :
     let k : Int → Value := fun i => ⟨.number, .marked ["m"] (.n (Num.ofInt i 64))⟩
-    (PathSet.equiv [.index (k 1)] [.index (k 2)]).isPanic = true := by
-  rfl
+    PathSet.equiv [.index (k 1)] [.index (k 2)] = .ok false ∧
+      PathSet.equiv [.index (k 1)] [.index (k 1)] = .ok true ∧
+      PathSet.equiv [.index (k 1)] [.index (Value.intVal 1)] = .ok true ∧
+      PathSet.keysOk [.index (k 1)] = true := by
+  refine ⟨rfl, rfl, rfl, rfl⟩
 
 /-- **PathSet refines sets of paths, for all histories.**  Whatever sequence of
 `Add`, `AddAllSteps`, `Remove`, `Has`, `List`, `Empty`, `Equal`, `Union`,
 `Intersection`, `Subtract`, `SymmetricDifference` calls is applied to PathSet
 variables that satisfy the representation invariant (in particular: to fresh
-sets), on paths with plain known keys: every variable satisfies the invariant
+sets), on paths with known number / string keys (marked or not): every variable satisfies the invariant
 afterwards; the mathematical sets it stands for (`abs`) are those obtained by
 running the mathematical operations (`psSpecRun`: ∪, ∩, ∖, △, insert, delete,
 insert-all-non-empty-prefixes); and every answer is the one those sets dictate
@@ -375,11 +388,12 @@ example : (walk X0 descend sample).1.length = 12 := by decide
 example : nodeAt X0 sample [0, 1] = some ⟨.string, .marked ["m2"] (.s "y")⟩ ∧
     pathAt X0 sample [0, 1] = some [.getAttr "a", .index (Value.intVal 1)] := ⟨rfl, rfl⟩
 example : noSetAt X0 sample [0, 1] = true ∧ noSetAt X0 sample [2, 0] = false := by decide
-example : plainKey (Value.intVal 1) = true ∧ plainKey (Value.strVal "k") = true ∧
-    plainKey ⟨.bool, .b true⟩ = true ∧ plainKey (Value.unknown .number) = false := by decide
+example : keysShaped [.index (Value.intVal 1), .index (Value.strVal "k"), .index ⟨.bool, .b true⟩,
+    .index (Value.unknown .number), .index (Value.null .string),
+    .index ⟨.number, .marked ["m"] (.n (.fin false 1 0 64))⟩] = true := by decide
 example : stepExists (.getAttr "a") sample = true ∧ stepExists (.getAttr "zz") sample = false := by
   decide
-example : plainKeys [.getAttr "b", .index (Value.intVal 1), .index (Value.strVal "k")] = true ∧
+example : keysShaped [.getAttr "b", .index (Value.intVal 1), .index (Value.strVal "k")] = true ∧
     stepsExist [.getAttr "b", .index (Value.intVal 1), .index (Value.strVal "k")] sample = true ∧
     stepsExist [.getAttr "b", .index (Value.intVal 2)] sample = false := by decide
 example : PathSet.keysOk [.getAttr "a", .index (Value.intVal 1), .index (Value.strVal "k")] = true := by
